@@ -122,6 +122,7 @@ type Exec struct {
 	lastPerm        [2]string
 	anchorCalls     map[string]*ast.CallExpr // anchor (call:Name#k, append#k) -> the call expression
 	curCall         *ast.CallExpr            // the call a before/after point is attached to (for arg(i))
+	famElem         map[string]types.Type    // spawns mode: element type of each channel family, by element sort
 	iterStart       map[int]*State           // state at the start of the current iteration of loop N (for pre(N, e))
 	lastLess        func(st *State, a, b string) string
 	curLoopWritable []string
@@ -306,6 +307,12 @@ func (x *Exec) mergeVal(cond string, va, vb Val, hint string) Val {
 	}
 	if va.T == vb.T {
 		return va
+	}
+	if strings.HasPrefix(hint, "famarr:") {
+		return Val{T: x.c.define("famarr", "(Array Int (Array Int "+hint[7:]+"))", ite(cond, va.T, vb.T))}
+	}
+	if strings.HasPrefix(hint, "famn:") {
+		return Val{T: x.c.define("famn", "(Array Int Int)", ite(cond, va.T, vb.T))}
 	}
 	return Val{T: x.c.define(hint, x.c.sortOf(va.Ty), ite(cond, va.T, vb.T)), Ty: va.Ty}
 }
